@@ -60,7 +60,6 @@ pub fn run(report: &mut Report, replay: Option<&Value>) {
         return;
     }
     super::replay_corpus(report, &|r, v| replay_e1(r, v));
-    let hooks = Hooks { classify: &classify, classify_compile: &|_, _| None, compile_failure_is_violation: false };
     let (n_programs, n_assign, rounds) = if report.thorough() { (300, 40, 10) } else { (240, 30, 1) };
     let mut stats = GenStats::default();
     let mut cfg = CaseCfg::default();
@@ -70,6 +69,9 @@ pub fn run(report: &mut Report, replay: Option<&Value>) {
     cfg.gen.max_frags = 1;
     cfg.gen.max_ops = 2;
     cfg.option_percent = 45;
+    let cfg_r = cfg.clone();
+    let rebuild = |tp: &[u8]| build_item(tp, &cfg_r, n_assign, &mut GenStats::default());
+    let hooks = Hooks { classify: &classify, classify_compile: &|_, _| None, compile_failure_is_violation: false, rebuild: Some(&rebuild) };
     for round in 0..rounds {
         let tapes = sample_tapes(report.seed, 0xC04 + round as u64 * 7919, n_programs, 3072);
         let items: Vec<Item> = tapes.iter().filter_map(|tp| build_item(tp, &cfg, n_assign, &mut stats)).collect();
